@@ -153,3 +153,66 @@ fn d1_non_canonical_258() {
         }
     }
 }
+
+fn png_chunk(kind: &[u8; 4], data: &[u8]) -> Vec<u8> {
+    let mut v = Vec::new();
+    v.extend_from_slice(&(data.len() as u32).to_be_bytes());
+    v.extend_from_slice(kind);
+    v.extend_from_slice(data);
+    // CRC-32 (IEEE) over type + data, bitwise
+    let mut crc = 0xFFFF_FFFFu32;
+    for &b in kind.iter().chain(data.iter()) {
+        crc ^= b as u32;
+        for _ in 0..8 {
+            crc = if crc & 1 != 0 { (crc >> 1) ^ 0xEDB8_8320 } else { crc >> 1 };
+        }
+    }
+    v.extend_from_slice(&(!crc).to_be_bytes());
+    v
+}
+
+fn roundtrip_container(f: &[u8]) {
+    let ff = f.to_vec();
+    let r = catch_unwind(move || preflate_rs::expand_zlib_chunks(&ff, 0));
+    assert!(r.is_ok(), "expand_zlib_chunks panicked");
+    let expanded = r.unwrap().expect("expand_zlib_chunks must return Ok for every file");
+    let mut out = Vec::new();
+    preflate_rs::recreated_zlib_chunks(&mut std::io::Cursor::new(expanded), &mut out).expect("recreate");
+    assert_eq!(&out[..], f);
+}
+
+/// D5a: fewer than 8 bytes after the last IDAT chunk (chunk header read with only `pos < len` checked).
+#[test]
+fn d5_idat_followed_by_short_tail() {
+    let mut f = vec![0x89, b'P', b'N', b'G'];
+    f.extend(png_chunk(b"IDAT", &[0x78, 0x9c, 1, 2, 3, 4, 5, 6, 7, 8]));
+    f.extend_from_slice(&[1, 2, 3, 4, 5]);
+    roundtrip_container(&f);
+}
+
+/// D5b: an IDAT payload of 3..5 bytes (`deflate_stream.len() - 4` with only `len >= 3` checked).
+#[test]
+fn d5_idat_payload_of_3_to_5_bytes() {
+    for n in 3..6usize {
+        let mut f = vec![0u8; 7];
+        f.extend(png_chunk(b"IDAT", &vec![0x78; n]));
+        f.extend_from_slice(&[0u8; 16]);
+        roundtrip_container(&f);
+    }
+}
+
+/// D6: a ZIP local file header whose extra field runs past the end of the file (unchecked seek, then slicing).
+#[test]
+fn d6_zip_extra_field_past_eof() {
+    let mut f = vec![9u8, 9, 9];
+    f.extend_from_slice(&0x04034b50u32.to_le_bytes());
+    f.extend_from_slice(&20u16.to_le_bytes()); // version
+    f.extend_from_slice(&0u16.to_le_bytes()); // flags
+    f.extend_from_slice(&8u16.to_le_bytes()); // method = deflate
+    f.extend_from_slice(&[0u8; 4]); // time, date
+    f.extend_from_slice(&[0u8; 12]); // crc, sizes
+    f.extend_from_slice(&0u16.to_le_bytes()); // name length
+    f.extend_from_slice(&0xFFFFu16.to_le_bytes()); // extra length: far past EOF
+    f.extend_from_slice(&[1, 2, 3]);
+    roundtrip_container(&f);
+}
